@@ -245,6 +245,9 @@ CASES = [
     ("m-c06-header-unguarded", "C06", "fire", "xdis/disasm.py", "    if source_size is not None:\n        real_out.write(\"# Source code size mod 2**32: %d bytes\\n\" % source_size)", "    if True:\n        real_out.write(\"# Source code size mod 2**32: %d bytes\\n\" % source_size)", "R6"),
     ("m-c03-getinstr-self-tables", "C03", "fire", "xdis/bytecode.py", "            line_offset = 0\n        return get_instructions_bytes(\n            co.co_code,\n            self.opc,\n            co.co_varnames,\n            co.co_names,\n            co.co_consts,",
      "            line_offset = 0\n        return get_instructions_bytes(\n            co.co_code,\n            self.opc,\n            co.co_varnames,\n            self.codeobj.co_names,\n            co.co_consts,", "tables-of-the-argument"),
+    ("m-c05-offset2line-low", "C05", "fire", "xdis/bytecode.py", "    return linestarts[high][1]\n", "    return linestarts[low][1]\n", "greatest-start-not-above-offset"),
+    ("m-c05-offset2line-before-first", "C05", "fire", "xdis/bytecode.py", "    if len(linestarts) == 0 or offset < linestarts[0][0]:\n        return 0", "    if len(linestarts) == 0 or offset <= linestarts[0][0]:\n        return 0", "greatest-start-not-above-offset"),
+    ("s-c05-offset2line-floor-mid", "C05", "silent", "xdis/bytecode.py", "    mid = (low + high + 1) // 2\n    while low <= high:", "    mid = (low + high) // 2\n    while low <= high:", ""),
 ]
 
 
